@@ -101,6 +101,10 @@ func checkC12(c *Ctx) {
 	c12LookupChecked(c, ri)
 	c12DerivedCache(c, ri, accs)
 	c12OrderPaired(c, ri, accs)
+	c12WindowOrdered(c)
+	// a list built in a recycled buffer is overwritten by the next request before it is encoded
+	poolAliasRule(c, "R-answer-owned")
+	poolResetRule(c, "R-pool-reset")
 
 	guards := GuardTable(c, accs)
 	guardOf := map[string]string{}
@@ -1269,4 +1273,155 @@ func c12OrderPaired(c *Ctx, ri *registryInfo, accs []Access) {
 	if n == 0 {
 		c.R.Break("R-order-paired: no append of a key to a registry order slice found")
 	}
+}
+
+// ---------------------------------------------------------------- R-window-ordered
+// A list that is built by ranging over a Go map comes out in a different order on every call. Answering with all of
+// it is fine (the order of tools/list is unspecified); cutting a window out of it by position — a page addressed by an
+// offset, "the first N" — is not: the window of the next call is cut from another permutation, so a client that pages
+// through the list sees some entries twice and others never, although nothing was registered or removed. A slice
+// expression with a lower bound that is not the constant 0, or an upper bound that is not the slice's own length,
+// must therefore not be applied to a value that originates from such an unordered producer.
+func c12WindowOrdered(c *Ctx) {
+	// unordered producers: return a slice appended to inside a range over a map, with no sorting in the function
+	unordered := map[*ssa.Function]bool{}
+	for _, fn := range c.P.LibFns {
+		res := fn.Signature.Results()
+		if res.Len() == 0 {
+			continue
+		}
+		if _, isSlice := res.At(0).Type().Underlying().(*types.Slice); !isSlice {
+			continue
+		}
+		overMap, sorts := false, false
+		ir.EachInstr(fn, func(_ *ssa.BasicBlock, _ int, in ssa.Instruction) {
+			switch x := in.(type) {
+			case *ssa.Range:
+				if _, isMap := x.X.Type().Underlying().(*types.Map); isMap {
+					overMap = true
+				}
+			case *ssa.Call:
+				if n := ir.CallName(x); strings.HasPrefix(n, "sort.") || strings.HasPrefix(n, "slices.Sort") {
+					sorts = true
+				}
+			}
+		})
+		if !overMap || sorts {
+			continue
+		}
+		// the returned slice is one that is appended to in the function
+		appends := false
+		ir.EachInstr(fn, func(_ *ssa.BasicBlock, _ int, in ssa.Instruction) {
+			if call, ok := in.(*ssa.Call); ok {
+				if b, ok := call.Call.Value.(*ssa.Builtin); ok && b.Name() == "append" && flow.InCycle(call.Block()) {
+					appends = true
+				}
+			}
+		})
+		if appends {
+			unordered[fn] = true
+		}
+	}
+	var origin func(fn *ssa.Function, v ssa.Value, d int, seen map[ssa.Value]bool) *ssa.Function
+	origin = func(fn *ssa.Function, v ssa.Value, d int, seen map[ssa.Value]bool) *ssa.Function {
+		if v == nil || d > 8 || seen[v] {
+			return nil
+		}
+		seen[v] = true
+		switch x := v.(type) {
+		case *ssa.Call:
+			if sc := ir.StaticCallee(x); sc != nil {
+				if unordered[sc] || (sc.Origin() != nil && unordered[sc.Origin()]) {
+					return sc
+				}
+			}
+			// a filter / helper that returns a slice made from a slice it is given
+			for _, a := range x.Call.Args {
+				if _, isSlice := a.Type().Underlying().(*types.Slice); isSlice {
+					if u := origin(fn, a, d+1, seen); u != nil {
+						return u
+					}
+				}
+			}
+		case *ssa.Phi:
+			for _, e := range x.Edges {
+				if u := origin(fn, e, d+1, seen); u != nil {
+					return u
+				}
+			}
+		case *ssa.Extract:
+			return origin(fn, x.Tuple, d+1, seen)
+		case *ssa.Slice:
+			return origin(fn, x.X, d+1, seen)
+		case *ssa.UnOp:
+			if u := unspill(x); u != ssa.Value(x) {
+				return origin(fn, u, d+1, seen)
+			}
+		case *ssa.Parameter:
+			idx := -1
+			for i, q := range fn.Params {
+				if q == x {
+					idx = i
+				}
+			}
+			for _, e := range ir.Callers(c.G, fn) {
+				if e.Site == nil || !c.P.IsLib(e.Caller.Func) {
+					continue
+				}
+				cc := e.Site.Common()
+				ai := idx
+				if cc.IsInvoke() {
+					ai--
+				}
+				if ai >= 0 && ai < len(cc.Args) {
+					if u := origin(e.Caller.Func, cc.Args[ai], d+1, seen); u != nil {
+						return u
+					}
+				}
+			}
+		}
+		return nil
+	}
+	n := 0
+	for _, fn := range c.P.LibFns {
+		if clientSide(c, fn) || unordered[fn] {
+			continue
+		}
+		ir.EachInstr(fn, func(_ *ssa.BasicBlock, _ int, in ssa.Instruction) {
+			sl, ok := in.(*ssa.Slice)
+			if !ok {
+				return
+			}
+			if _, isSlice := sl.X.Type().Underlying().(*types.Slice); !isSlice {
+				return
+			}
+			lowZero := sl.Low == nil
+			if k, ok := sl.Low.(*ssa.Const); ok {
+				if v, ok2 := ir.ConstInt(k); ok2 && v == 0 {
+					lowZero = true
+				}
+			}
+			if lowZero && sl.High == nil {
+				return
+			}
+			u := origin(fn, sl.X, 0, map[ssa.Value]bool{})
+			if u == nil {
+				return
+			}
+			n++
+			c.R.Violate("R-window-ordered", sprintf("window cut out of the result of %s in %s", fname(u), fname(fn)), c.Pos(sl.Pos()),
+				sprintf("%s cuts a window by position out of a list that %s builds by ranging over a map: the order of that list changes from call to call, so successive windows (pages) are cut from different permutations — a client paging through the list sees some entries twice and others never, a list that matches no state of the registry", fname(fn), fname(u)))
+		})
+	}
+	names := []string{}
+	for f := range unordered {
+		if !clientSide(c, f) {
+			names = append(names, fname(f))
+		}
+	}
+	sort.Strings(names)
+	if len(names) == 0 {
+		c.R.Break("R-window-ordered: no list producer ranging over a map found")
+	}
+	c.R.Hold("R-window-ordered", "lists built by ranging over a map are answered whole", "", sprintf("unordered producers: %v; no positional window is cut out of their results", names))
 }
